@@ -168,8 +168,10 @@ package casketfile
 
 //@ func (*parser).openCurlyBrace
 //@   pure reads Dispenser
+//@   requires p != nil
 //@ func (*parser).closeCurlyBrace
 //@   pure reads Dispenser
+//@   requires p != nil
 //@ func (*parser).blockContents
 //@   requires p != nil && p.cursor >= 0 && p.block.Tokens != nil
 //@   modifies Dispenser.cursor, Dispenser.tokens, MV:map[string][]github.com/tmpim/casket/casketfile.Token, MD:map[string][]github.com/tmpim/casket/casketfile.Token, E:github.com/tmpim/casket/casketfile.Token, ghost:fileLookups
@@ -190,7 +192,7 @@ package casketfile
 //@   ensures [known_iff_listed] p.validDirectives != nil ==> (result == exists(k, 0, len(p.validDirectives), p.validDirectives[k] == dir))
 //@   loop 1 invariant 0 <= #i && #i <= len(p.validDirectives) && forall(k, 0, #i, p.validDirectives[k] != dir)
 
-//@ unit env_references frames=on props=C10 filter=`casketfile\.replaceEnvReferences$`
+//@ unit env_references frames=on props=C10 verify_pure=on filter=`casketfile\.replaceEnvReferences$`
 //@ // Environment references ({$NAME}, {%NAME%}) are expanded until none is left that could be: when the function returns,
 //@ // the first place where a reference starts either does not exist, or is not closed, or has an empty name (the form the
 //@ // function deliberately leaves alone). A single left-to-right pass that skips over text cannot promise this.
@@ -201,8 +203,11 @@ package casketfile
 //@   pure
 //@ define first(r string) int = strings.Index(r, refStart)
 //@ func replaceEnvReferences
+//@   pure
+//@   ensures [empty_stays_empty] (s == "" && refStart != "") ==> result == ""
 //@   ensures [no_expandable_reference_left_at_the_front] first(result) == -1 || strings.Index(result[first(result):], refEnd) == -1 || strings.Index(result[first(result):], refEnd) <= len(refStart)
 //@   loop 1 invariant index == strings.Index(s, refStart)
+//@   loop 1 invariant (old(s) == "" && refStart != "") ==> s == ""
 
 //@ unit lexer_next frames=on props=C10,C09 filter=`casketfile\.lexer\)\.next$`
 //@ ghost remaining int
@@ -224,6 +229,25 @@ package casketfile
 //@   ensures [every_line_feed_counted] l.line - old(l.line) == nlRead - old(nlRead)
 //@   ensures [consumes_input] remaining <= old(remaining)
 //@   ensures [false_means_exhausted] !result ==> remaining == old(remaining) || remaining < old(remaining)
-//@   loop 1 invariant remaining <= old(remaining) && l != nil && l.reader != nil
+//@   loop 1 invariant remaining <= old(remaining) && remaining >= 0 && l != nil && l.reader != nil
 //@   loop 1 invariant [line_counter_tracks_input] l.line - old(l.line) == nlRead - old(nlRead)
 //@   loop 1 decreases remaining
+
+//@ unit parser_helpers frames=on props=C10,C09 verify_pure=on filter=`casketfile\.(isNextOnNewLine|replaceEnvVars)$|casketfile\.parser\)\.(openCurlyBrace|closeCurlyBrace)$|casketfile\.Token\)\.NumLineBreaks$`
+//@ // the small helpers that parser_chain and dispenser_api only assume: proved pure (no write to the heap) here
+//@ use casketfile/contracts_verif.go:dispenser_api
+//@ use @verif/specs/stdlib.spec:stdlib
+//@ func replaceEnvReferences
+//@   pure
+//@   ensures [empty_stays_empty] (s == "" && refStart != "") ==> result == ""
+//@ func (Token).NumLineBreaks
+//@   pure
+//@ func replaceEnvVars
+//@   pure
+//@   ensures s == "" ==> result == ""
+//@ func (*parser).openCurlyBrace
+//@   pure reads Dispenser
+//@   requires p != nil
+//@ func (*parser).closeCurlyBrace
+//@   pure reads Dispenser
+//@   requires p != nil
